@@ -348,6 +348,8 @@ class Interp:
         self.let_type = None
         self.lenient = False
         self.resolve_into = False
+        self.opaque_iteration = False  # lenient extras for decision skeletons: iterate opaque collections once, drop field stores into opaque values
+        self.macro_models = {}  # macro name -> python callable(interp, evaluated args)
         self.events = []
         self.opaque = {}
         self.opaque_seen = set()
@@ -668,7 +670,7 @@ class Interp:
                 r = self.land(r, self.eq(a[k], b[k]))
             return r
         if isinstance(a, Uninterp) or isinstance(b, Uninterp):
-            if a == b:
+            if a is b or (isinstance(a, Uninterp) and isinstance(b, Uninterp) and a == b):
                 return True
             if self.lenient:
                 return self.opaque_bool(Uninterp("eq", [a, b]))
@@ -1043,6 +1045,10 @@ class Interp:
             env.set_existing(lhs[1][0], v)
         elif k == "field":
             obj = self.eval(lhs[1], env)
+            if isinstance(obj, Uninterp) and self.lenient and self.opaque_iteration:
+                # opt-in: a field of a value without a model cannot be stored; the value (and what it was built from) stays as it was
+                self.opaque_seen.add("field-assign(opaque)")
+                return
             if not isinstance(obj, dict):
                 raise Unsupported("field assignment on %r" % (obj,))
             obj[lhs[2]] = v
@@ -1244,6 +1250,9 @@ class Interp:
             return sorted(v, key=repr)
         if isinstance(v, Enum) and v.ty == "Option":
             return [v.payload[0]] if v.variant == "Some" else []
+        if isinstance(v, Uninterp) and self.lenient and self.opaque_iteration:
+            # decision skeletons only (opt-in): a collection without a model is visited once, with an opaque element that keeps its origin
+            return [self.mk_opaque("elem", [v])]
         raise Unsupported("iteration over %r" % (v,))
 
     def ev_for(self, e, env):
@@ -1306,6 +1315,8 @@ class Interp:
     def ev_macro(self, e, env):
         name = e[1][-1]
         args = e[3]
+        if name in self.macro_models:
+            return self.macro_models[name](self, [self.eval(a, env) for a in (args or [])])
         if name == "vec":
             if args is None:
                 raise Unsupported("vec! arguments")
